@@ -74,15 +74,20 @@ class AvroWriter(AbstractWriter):
         self.writer.write(r._packdict())
 
     def flush(self):
-        if not self.writer:
-            self.writer = fastavro.write.Writer(
-                self.fp,
-                fastavro.parse_schema({"type": "record", "name": "empty"}),
-                codec=self.codec,
-            )
-        self.writer.flush()
+        if self.writer:
+            self.writer.flush()
 
     def close(self) -> None:
+        if self.fp:
+            if not self.writer:
+                # No records were written, leave a valid (empty) Avro container behind
+                self.writer = fastavro.write.Writer(
+                    self.fp,
+                    fastavro.parse_schema({"type": "record", "name": "empty"}),
+                    codec=self.codec,
+                )
+            # fastavro buffers records, make sure they are written before the file is closed
+            self.writer.flush()
         if self.fp and not is_stdout(self.fp):
             self.fp.close()
         self.fp = None
